@@ -364,6 +364,14 @@ func c19Adversarial() []c19Adv {
 		{"negative-size", set("buffer_config/size", -5)},
 		{"negative-timeout", set("milvus_connect_param/connect_timeout", -1)},
 		{"both-targets", set("kafka_connect_param/address", "kafka:9092")},
+		{"kafka-and-milvus-host-only", func(d map[string]interface{}) {
+			d["milvus_connect_param"] = map[string]interface{}{"host": "h"}
+			d["kafka_connect_param"] = map[string]interface{}{"address": "kafka:9092", "topic": "t"}
+		}},
+		{"kafka-and-milvus-port-only", func(d map[string]interface{}) {
+			d["milvus_connect_param"] = map[string]interface{}{"port": 19530}
+			d["kafka_connect_param"] = map[string]interface{}{"address": "kafka:9092", "topic": "t"}
+		}},
 		{"no-target", func(d map[string]interface{}) { delete(d, "milvus_connect_param") }},
 		{"kafka-no-topic", func(d map[string]interface{}) {
 			delete(d, "milvus_connect_param")
@@ -390,7 +398,7 @@ func TestVerifC19Rejects(t *testing.T) {
 	defer res.Write()
 	log.Info("warm up")
 	advs := c19Adversarial()
-	res.Rule = fmt.Sprintf("%d structurally valid create requests with adversarial values (names with '.', '/', empty, over-long; '*' with positions; undecodable / non-proto / non-virtual / malformed-vchannel / mixed-collection positions, a valid position followed by an undecodable one; negative buffer and timeout values; both / no targets; kafka without topic; user without password; foreign rpc channel; undecodable rpc position; mapping of an unselected collection; a collection another task already replicates or covers with a wildcard) - each alone, in three more contexts of the request (rpc channel name left out, a valid collection position filled in, both) and together with every other one - sent to the empty server and after every accepted prefix of length <= 2 out of {create a, create db1/*, create a then pause}; the answer must be a well-formed error (or, if accepted, later requests must still be answered) and a rejected request must leave tasks, checkpoints, duplicate bookkeeping and the store dump unchanged; non-trivial = rejected requests on a non-empty server", len(advs))
+	res.Rule = fmt.Sprintf("%d structurally valid create requests with adversarial values (names with '.', '/', empty, over-long; '*' with positions; undecodable / non-proto / non-virtual / malformed-vchannel / mixed-collection positions, a valid position followed by an undecodable one; negative buffer and timeout values; both / no targets (also a Kafka target beside an incomplete Milvus one); kafka without topic; user without password; foreign rpc channel; undecodable rpc position; mapping of an unselected collection; a collection another task already replicates or covers with a wildcard) - each alone, in three more contexts of the request (rpc channel name left out, a valid collection position filled in, both) and together with every other one - sent to the empty server and after every accepted prefix of length <= 2 out of {create a, create db1/*, create a then pause}; the answer must be a well-formed error (or, if accepted, later requests must still be answered) and a rejected request must leave tasks, checkpoints, duplicate bookkeeping and the store dump unchanged; non-trivial = rejected requests on a non-empty server", len(advs))
 	prefixes := [][]map[string]interface{}{nil}
 	mk := func(id string, f func(d map[string]interface{})) map[string]interface{} {
 		d := c19Valid(id)["create"]
